@@ -50,7 +50,8 @@ def exact_records(rnd, tier):
                             if mk == "burgers" and all(x == 0 for x in d):
                                 continue
                             model = fd.conv.model(a) if mk == "conv" else fd.burgers.model()
-                            m = fd.uniform(n, length=float(n))
+                            # the origin of a uniform mesh is free: exact (dyadic) origins on both sides of zero, half a cell included
+                            m = fd.uniform(n, length=float(n), x0=[0.0, -0.5, 2.0, -1.5][(len(recs) // 7) % 4])
                             try:
                                 fields = iterate(model, m, recon, integ, d, cfl, 2)
                             except Exception as ex:
@@ -103,7 +104,8 @@ def tok_records(rnd, tier):
             m = fd.mesh_from_faces(np.concatenate([[0.0], np.cumsum(w)]))
             cfl = rnd.choice([1.0, 0.9, 0.5, 0.1])
         else:
-            m = fd.uniform(n, length=rnd.choice([1.0, 10.0]))
+            L_ = rnd.choice([1.0, 10.0])
+            m = fd.uniform(n, length=L_, x0=rnd.choice([0.0, 0.0, -0.5 * L_ / n, -1.5 * L_ / n, -L_ / 2, 0.3, -7.3]))
             cfl = rnd.choice([0.5, 0.45, 0.3, 0.05])
         kind = rnd.choice(["rand", "step", "saw", "sign", "ints"])
         if kind == "rand":
